@@ -408,6 +408,13 @@ func (g *wgen) intVal(bits uint) int64 {
 func (g *wgen) bytesVal(utf bool) []byte {
 	r := g.rng
 	n := []int{0, 0, 1, 3, 10, 70, 200}[r.Intn(7)]
+	// lengths at the steps of the varint encoding of the length (one -> two -> three bytes)
+	switch k := r.Intn(100); {
+	case k < 8:
+		n = []int{63, 64, 65, 127, 128}[r.Intn(5)]
+	case k == 8:
+		n = []int{8191, 8192, 8193}[r.Intn(3)]
+	}
 	b := make([]byte, n)
 	for i := range b {
 		if utf {
